@@ -1,5 +1,89 @@
-(* C11 - statements only. *)
-Require Import ZArith List. Require Import IW.Lib.CInt IW.Gen.Facts IW.FS.Bits IW.FS.Fsm.
+(* C11 - allocator bookkeeping is conserved, coalesced and survives reopen.  Statements only.
+   tree_is_runs ("in every reachable state the free-extent tree lists exactly the maximal zero runs of the bitmap")
+   is FALSE of the model of src/fs/iwfsmfile.c as it is (C11_tree_is_runs_refuted, witness replayed on the real code by
+   corpus/C11/lfbk-stale-cache.txt) and is proved for the model of the code after fixes/fsm-lfbk.diff
+   (C11_tree_is_runs_partial; _partial: histories in which the bitmap does not grow/move, see Properties_C10.v).
+   Not proved: trim_to_last_used, clear_is_init (both go through _fsm_init_lw) - checked by T2 and the oracle only. *)
+Require Import ZArith List Bool. Require Import IW.Lib.CInt IW.Gen.Facts IW.FS.Bits IW.FS.Bits_proofs IW.FS.Fsm IW.FS.Fsm_proofs.
 Import ListNotations. Local Open Scope Z_scope.
-Example C11_placeholder : cmp_key (1, 2) (1, 3) = -1.
-Proof. reflexivity. Qed.
+
+(* _fsm_load_fsm_lw (byte-wise scan with the 0x00 / 0xff shortcuts) emits exactly the maximal zero runs, all bitmaps *)
+Theorem C11_load_is_runs : forall l len, len_z l = len * 8 ->
+  forall o n, In (o, n) (load_runs l len) <-> is_run l o n.
+Proof. exact load_is_runs. Qed.
+Print Assumptions C11_load_is_runs.
+
+Theorem C11_load_builds_tree : forall s, len_z (bm s) = nbits s -> nbits s <= FSM_BKEY_MAX ->
+  frame s (load_fsm s) /\ tsorted (tree (load_fsm s)) /\
+  (forall o n, In (n, o) (tree (load_fsm s)) <-> is_run (bm s) o n) /\
+  ((lfbkoff s = 0 \/ exists i, lfbkoff s + lfbklen s - 1 <= i /\ wbit (bm s) i = false) -> LF (load_fsm s)).
+Proof. exact load_fsm_spec. Qed.
+Print Assumptions C11_load_builds_tree.
+
+Theorem C11_tree_is_runs_partial : forall ops s, Good s -> ok_run s ops ->
+  forall o n, In (n, o) (tree (run s ops)) <-> is_run (bm (run s ops)) o n.
+Proof. exact tree_is_runs_partial. Qed.
+Print Assumptions C11_tree_is_runs_partial.
+
+Theorem C11_tree_is_runs_refuted : exists ops, ok_run (fresh v_current false) ops /\
+  ~ (forall o n, In (n, o) (tree (run (fresh v_current false) ops)) <-> is_run (bm (run (fresh v_current false) ops)) o n).
+Proof. exact tree_is_runs_refuted. Qed.
+Print Assumptions C11_tree_is_runs_refuted.
+
+(* release = clear the range and merge with both free neighbours (code after fixes/fsm-lfbk.diff) *)
+Theorem C11_release_merges : forall s a m, Inv s -> fx_lfbk (vr s) = true ->
+  0 <= a -> 0 < m -> a + m <= nbits s -> (forall i, a <= i < a + m -> getb (bm s) i = true) ->
+  blk_deallocate s a m = (0, dealloc_nf s a m) /\
+  Inv (dealloc_nf s a m) /\ bm (dealloc_nf s a m) = set_range (bm s) a m false /\ same_cfg s (dealloc_nf s a m).
+Proof.
+  intros s a m Hi Hfx Ha Hm He Hb. split; [apply blk_deallocate_nf; try assumption; apply (inv_len s Hi)|].
+  apply dealloc_nf_inv; assumption.
+Qed.
+Print Assumptions C11_release_merges.
+
+Theorem C11_reopen_same : forall s st mm, len_z (bm s) = nbits s -> nbits s <= FSM_BKEY_MAX -> WF s -> fx_lfbk (vr s) = true ->
+  Good (reopen s st mm) /\ bm (reopen s st mm) = bm s /\ bmoff (reopen s st mm) = bmoff s /\
+  bmlen (reopen s st mm) = bmlen s /\ hdrlen (reopen s st mm) = hdrlen s /\ bpow (reopen s st mm) = bpow s /\
+  (forall o n, In (n, o) (tree (reopen s st mm)) <-> is_run (bm s) o n).
+Proof. exact reopen_same. Qed.
+Print Assumptions C11_reopen_same.
+
+(* the two bit scans return the nearest set bit inside their window *)
+Theorem C11_find_next_spec : forall l off max, 0 <= off -> max <= len_z l ->
+  match find_next_set_bit l off max with
+  | Some r => off <= r < max /\ getb l r = true /\ (forall j, off <= j < r -> getb l j = false)
+  | None => forall j, off <= j < max -> getb l j = false
+  end.
+Proof. exact find_next_spec. Qed.
+Print Assumptions C11_find_next_spec.
+Theorem C11_find_prev_spec : forall l off mn, 0 <= mn -> off <= len_z l ->
+  match find_prev_set_bit l off mn with
+  | Some r => mn <= r < off /\ getb l r = true /\ (forall j, r < j < off -> getb l j = false)
+  | None => forall j, mn <= j < off -> getb l j = false
+  end.
+Proof. exact find_prev_spec. Qed.
+Print Assumptions C11_find_prev_spec.
+
+(* maximal runs under the two bitmap updates *)
+Theorem C11_runs_after_free : forall l l' a m lo hi, agree_out l l' a m false ->
+  (forall i, a <= i < a + m -> wbit l i = true) -> 0 < m -> lo <= a -> a + m <= hi ->
+  wbit l (lo - 1) = true -> wbit l hi = true ->
+  (forall i, lo <= i < a -> wbit l i = false) -> (forall i, a + m <= i < hi -> wbit l i = false) ->
+  forall o n, is_run l' o n <-> ((o = lo /\ n = hi - lo) \/ (is_run l o n /\ (o + n < lo \/ hi < o))).
+Proof. exact runs_after_free. Qed.
+Print Assumptions C11_runs_after_free.
+Theorem C11_runs_after_alloc : forall l l' ro rn a m, agree_out l l' a m true -> is_run l ro rn ->
+  ro <= a -> 0 < m -> a + m <= ro + rn ->
+  forall o n, is_run l' o n <->
+    ((is_run l o n /\ (o, n) <> (ro, rn)) \/ (o = ro /\ n = a - ro /\ ro < a) \/
+     (o = a + m /\ n = ro + rn - (a + m) /\ a + m < ro + rn)).
+Proof. exact runs_after_alloc. Qed.
+Print Assumptions C11_runs_after_alloc.
+
+(* satisfiable hypotheses / the witness history on the fixed code ends with one merged extent *)
+Example C11_good_state_exists : Good (reopen (fresh v_fixed false) false false).
+Proof. exact fresh_reopened_good. Qed.
+Example C11_witness_on_fixed_code : ok_run (fresh v_fixed false) lfbk_witness /\
+  tree (run (fresh v_fixed false) lfbk_witness) = [(46, 18)] /\
+  tree (run (fresh v_current false) lfbk_witness) = [(8, 18); (38, 26)].
+Proof. split; [apply lfbk_witness_ok; right; reflexivity|split; vm_compute; reflexivity]. Qed.
